@@ -99,6 +99,14 @@ def run(ctx):
                 a = [0] * N; b = [0] * N; a[i] = 1; b[j] = rng.choice([1, -1, 2**31 - 1, -2**31])
                 add(6, N, 0, a, b, meta=('mul', a, b, None, 0))
                 add(7, N, 0, a, b, meta=('mul', a, b, None, 0))
+    # descending dimensions: every product follows a larger dense one made by the same thread (whatever a routine keeps between calls - a grown
+    # workspace, a table - was last used at a larger size); twice, so that each size also follows the smallest
+    for rep in range(2):
+        for N in reversed(Ns):
+            a = vec(rng, N, 'rnd'); b = vec(rng, N, 'rnd'); c = vec(rng, N, 'rnd')
+            blds = ('optim', 'debug') if N <= 64 else ('optim',)
+            add(7, N, 0, a, b, builds=blds, meta=('mul', a, b, None, 0)); add(10, N, 0, a, b, c, builds=blds, meta=('mul', a, b, c, 1)); add(11, N, 0, a, b, c, builds=blds, meta=('mul', a, b, c, -1))
+            add(6, N, 0, a, b, builds=blds, meta=('mul', a, b, None, 0))
     impl = {}
     for bld in ('optim', 'debug'):
         idx = [i for i, c in enumerate(cases) if c[2] == bld]
